@@ -72,6 +72,8 @@ struct Tols {
     /// above -pd_rel * largest (f64: only with reg_covar = 0)
     pd_rel: f64,
     pd_any_reg: bool,
+    /// rounding of a mean log-likelihood computed by the subject in its float type (relative)
+    loglik_round: f64,
     scales: &'static [f64],
 }
 
@@ -95,6 +97,7 @@ const TOLS_F64: Tols = Tols {
     ln_zero: -745.2,
     pd_rel: 1e-12,
     pd_any_reg: false,
+    loglik_round: 1e-10,
     scales: &SCALES_F64,
 };
 const TOLS_F32: Tols = Tols {
@@ -117,6 +120,7 @@ const TOLS_F32: Tols = Tols {
     ln_zero: -104.04,
     pd_rel: 1e-5,
     pd_any_reg: true,
+    loglik_round: 1e-4,
     scales: &SCALES_F32,
 };
 
@@ -715,6 +719,32 @@ fn run_fit<F: Float>(case: &Case, cfg: &Cfg, t: &Tols, cnt: &mut Cnt, viols: &mu
         }
     }
 
+    // statistic on "Ok implies converged": the subject stops when the mean log-likelihood changed by less than the
+    // tolerance between two consecutive iterations, so one further (reference) EM step from the published
+    // parameters must not move it by much more than that
+    if max_cond.is_finite() && max_cond < 1e10 {
+        let l1 = mean_loglik(&data, &comps);
+        match ref_em_step(&data, &comps, reg) {
+            Some(next) if l1.is_finite() => {
+                let l2 = mean_loglik(&data, &next);
+                let tol_f = f64_of(F::cast(cfg.tol));
+                let bound = 10.0 * tol_f + t.loglik_round * (1.0 + l1.abs());
+                cnt.add("stationarity_checks", 1);
+                let ratio = (l2 - l1).abs() / tol_f;
+                cnt.max("max_log10_next_step_change_over_tolerance_x100_plus_2000", if ratio > 0.0 { (ratio.log10() * 100.0 + 2000.0).max(0.0) as u64 } else { 0 });
+                // statistic only: a run may legitimately stop on a plateau that a dormant component leaves
+                // later (seen with more components than distinct points), so this is not a verdict; the
+                // verdict on "Ok implies converged" is the lock-step reference EM of the `lockstep` cases
+                if !((l2 - l1).abs() <= bound) {
+                    cnt.add("ok_models_whose_next_em_step_moves_the_log_likelihood_by_more_than_10_tolerances", 1);
+                }
+            }
+            _ => cnt.add("stationarity_checks_indeterminate_reference_step_failed", 1),
+        }
+    } else {
+        cnt.add("stationarity_checks_indeterminate_ill_conditioned", 1);
+    }
+
     // ---------------- query menu ----------------
     struct Q {
         kind: String,
@@ -893,9 +923,185 @@ fn run_fit<F: Float>(case: &Case, cfg: &Cfg, t: &Tols, cnt: &mut Cnt, viols: &mu
     true
 }
 
+/// Mean log-likelihood of the data under the reference components.
+fn mean_loglik(data: &Mat, comps: &[RefComp]) -> f64 {
+    data.iter().map(|x| refmath::logsumexp(&comps.iter().map(|c| c.wlp(x).0).collect::<Vec<_>>())).sum::<f64>() / data.len() as f64
+}
+
+/// One textbook EM step (E-step with a max-shifted log-sum-exp, M-step with reg on the diagonal) from the
+/// given components; None when a new covariance has no Cholesky factor or a component is emptied.
+fn ref_em_step(data: &Mat, comps: &[RefComp], reg: f64) -> Option<Vec<RefComp>> {
+    let (n, d, k) = (data.len(), data[0].len(), comps.len());
+    let resp: Vec<Vec<f64>> = data.iter().map(|x| posterior(&comps.iter().map(|c| c.wlp(x).0).collect::<Vec<_>>())).collect();
+    let mut out = Vec::new();
+    for c in 0..k {
+        let nk: f64 = resp.iter().map(|r| r[c]).sum();
+        if !(nk > 1e-12) {
+            return None;
+        }
+        let mu: Vec<f64> = (0..d).map(|j| data.iter().zip(&resp).map(|(x, r)| r[c] * x[j]).sum::<f64>() / nk).collect();
+        let mut s = refmath::zeros(d, d);
+        for (x, r) in data.iter().zip(&resp) {
+            for i in 0..d {
+                for j in 0..d {
+                    s[i][j] += r[c] * (x[i] - mu[i]) * (x[j] - mu[j]);
+                }
+            }
+        }
+        for i in 0..d {
+            for j in 0..d {
+                s[i][j] /= nk;
+            }
+            s[i][i] += reg;
+        }
+        let l = refmath::cholesky(&s)?;
+        let logdet = 2.0 * (0..d).map(|i| l[i][i].ln()).sum::<f64>();
+        out.push(RefComp { lw: (nk / n as f64).ln(), mu, l, logdet, cond: 1.0 });
+    }
+    Some(out)
+}
+
 fn posterior(wl: &[f64]) -> Vec<f64> {
     let lse = refmath::logsumexp(wl);
     wl.iter().map(|v| (v - lse).exp()).collect()
+}
+
+// ------------------------------------------------------------------------------------------
+// lock-step reference EM: "Ok implies converged, Err(NotConverged) implies not converged"
+// ------------------------------------------------------------------------------------------
+
+fn ref_comps_of(model: &GaussianMixtureModel<f64>) -> Option<Vec<RefComp>> {
+    let mut out = Vec::new();
+    for (c, s) in model.covariances().outer_iter().enumerate() {
+        let sm: Mat = s.rows().into_iter().map(|r| r.to_vec()).collect();
+        let l = refmath::cholesky(&sm)?;
+        let logdet = 2.0 * (0..sm.len()).map(|i| l[i][i].ln()).sum::<f64>();
+        out.push(RefComp { lw: model.weights()[c].ln(), mu: model.means().row(c).to_vec(), l, logdet, cond: 1.0 });
+    }
+    Some(out)
+}
+
+fn run_lockstep(case: &Case, cfg: &Cfg, cnt: &mut Cnt, viols: &mut Vec<Violation>) -> bool {
+    let cj = |at: Value| single_case_json(case, cfg, at);
+    let cfg_txt = cfg_text(case, cfg);
+    cnt.add("fits", 1);
+    let data = &case.data;
+    // the subject's own state after exactly two EM iterations
+    let start = match do_fit::<f64>(case, &Cfg { tol: 1e300, ..cfg.clone() }, cfg.max_iter) {
+        Ok(Ok(m)) => m,
+        _ => {
+            cnt.add("indeterminate_no_two_iteration_state", 1);
+            return false;
+        }
+    };
+    match do_fit::<f64>(case, cfg, 3) {
+        Ok(Ok(_)) => {
+            cnt.add("indeterminate_stopped_within_the_first_three_iterations", 1);
+            return false;
+        }
+        Ok(Err(GmmError::NotConverged(_))) => {}
+        _ => {
+            cnt.add("indeterminate_error_within_the_first_three_iterations", 1);
+            return false;
+        }
+    }
+    let result = match do_fit::<f64>(case, cfg, cfg.max_iter) {
+        Err(p) => {
+            viols.push(Violation::new("gmm.fit.panic", format!("fit panicked ({}): {}", cfg_txt, p), cj(json!({"phase": "fit"}))));
+            return false;
+        }
+        Ok(r) => r,
+    };
+    // reference trajectory: theta[j] are the parameters at the start of iteration j, l[j] their mean log-likelihood
+    let Some(mut theta) = ref_comps_of(&start) else {
+        cnt.add("indeterminate_reference_failed", 1);
+        return false;
+    };
+    let mut l_prev = f64::NAN; // L_1 is not observable
+    let mut expected: Option<(u64, Vec<RefComp>, f64)> = None; // (iteration, parameters after its M-step, change)
+    let mut changes: Vec<f64> = Vec::new();
+    for j in 2..cfg.max_iter {
+        let l_j = mean_loglik(data, &theta);
+        let Some(next) = ref_em_step(data, &theta, cfg.reg) else {
+            cnt.add("indeterminate_reference_failed", 1);
+            return false;
+        };
+        if j >= 3 {
+            let change = l_j - l_prev;
+            changes.push(change);
+            if (change.abs() - cfg.tol).abs() <= 1e-11 * (1.0 + l_j.abs()) + 0.01 * cfg.tol {
+                cnt.add("indeterminate_change_within_rounding_of_the_tolerance", 1);
+                return false;
+            }
+            if change.abs() < cfg.tol {
+                expected = Some((j, next, change));
+                break;
+            }
+        }
+        l_prev = l_j;
+        theta = next;
+    }
+    let at = cj(json!({"phase": "lockstep"}));
+    let dist = |m: &GaussianMixtureModel<f64>, th: &[RefComp]| -> f64 {
+        let mut dv = 0.0f64;
+        let mut sc = 1.0f64;
+        for (c, r) in th.iter().enumerate() {
+            dv = dv.max((m.weights()[c] - r.lw.exp()).abs());
+            for (a, b) in m.means().row(c).iter().zip(&r.mu) {
+                dv = dv.max((a - b).abs());
+                sc = sc.max(b.abs());
+            }
+        }
+        dv / sc
+    };
+    cnt.add("decided", 1);
+    match (&result, &expected) {
+        (Ok(m), Some((j, th, change))) => {
+            cnt.add("decided_converged", 1);
+            let dv = dist(m, th);
+            if !(dv <= 1e-6) {
+                // which iteration of the reference trajectory does the published model belong to?
+                let mut th2 = ref_comps_of(&start).unwrap();
+                let mut found: Option<(u64, f64)> = None;
+                let mut lp = f64::NAN;
+                for jj in 2..cfg.max_iter {
+                    let lj = mean_loglik(data, &th2);
+                    let Some(nx) = ref_em_step(data, &th2, cfg.reg) else { break };
+                    if dist(m, &nx) <= 1e-6 {
+                        found = Some((jj, lj - lp));
+                        break;
+                    }
+                    lp = lj;
+                    th2 = nx;
+                }
+                let (sig, extra) = match found {
+                    Some((jj, ch)) => ("gmm.fit.stopped_at_an_iteration_whose_change_is_not_below_the_tolerance", format!("it is the reference state of iteration {} whose lower-bound change is {:e}", jj, ch)),
+                    None => ("gmm.fit.ok_model_is_not_the_reference_em_state_at_convergence", "it matches no reference iterate".to_string()),
+                };
+                viols.push(Violation::new(
+                    sig,
+                    format!(
+                        "{}: the reference EM (started from the subject's state after 2 iterations) first meets |change| < {:e} at iteration {} (change {:e}); the published model differs from that state by {:e} relative: {}; weights {:?} vs reference {:?}",
+                        cfg_txt, cfg.tol, j, change, dv, extra, m.weights().to_vec(), th.iter().map(|c| c.lw.exp()).collect::<Vec<_>>()
+                    ),
+                    at,
+                ));
+            }
+        }
+        (Err(GmmError::NotConverged(_)), None) => cnt.add("decided_not_converged", 1),
+        (Ok(m), None) => viols.push(Violation::new(
+            "gmm.fit.ok_although_no_iteration_meets_the_tolerance",
+            format!("{}: the reference EM never has |change| < {:e} within {} iterations (changes from iteration 3: {:?} ...), yet fit returned Ok with weights {:?}", cfg_txt, cfg.tol, cfg.max_iter, &changes[..changes.len().min(6)], m.weights().to_vec()),
+            at,
+        )),
+        (Err(e), Some((j, _, change))) => viols.push(Violation::new(
+            "gmm.fit.err_although_reference_em_converges",
+            format!("{}: the reference EM meets |change| < {:e} at iteration {} (change {:e}) but fit returned Err({})", cfg_txt, cfg.tol, j, change, e),
+            at,
+        )),
+        (Err(_), None) => cnt.add("indeterminate_other_error", 1),
+    }
+    true
 }
 
 // ------------------------------------------------------------------------------------------
@@ -1511,6 +1717,7 @@ fn run_case(case: &Case, viols: &mut Vec<Violation>) -> (Cnt, u64, u64) {
             ("ladder", _) => run_ladder(case, &cfg, &mut cnt, viols),
             ("builder", _) => run_builder(case, &cfg, &mut cnt, viols),
             ("forms", _) => run_forms(case, &cfg, &mut cnt, viols),
+            ("lockstep", _) => run_lockstep(case, &cfg, &mut cnt, viols),
             ("layout", "f32") => run_layout::<f32>(case, &cfg, &TOLS_F32, &mut cnt, viols),
             ("layout", _) => run_layout::<f64>(case, &cfg, &TOLS_F64, &mut cnt, viols),
             (_, "f32") => run_fit::<f32>(case, &cfg, &TOLS_F32, &mut cnt, viols) && case.n_clusters >= 2,
@@ -1530,6 +1737,8 @@ fn run_case(case: &Case, viols: &mut Vec<Violation>) -> (Cnt, u64, u64) {
         "builder."
     } else if case.kind == "forms" {
         "forms."
+    } else if case.kind == "lockstep" {
+        "lockstep."
     } else if case.float == "f32" {
         "f32."
     } else {
@@ -1568,6 +1777,8 @@ fn main() {
          f32 sweep: GaussianMixtureModel<f32> on the separated / overlapping members with <= 2 features, components 1..3, both initialisers, seeds 0..3 / 0..7, reg_covar {1e-6,1e-3,0.1}, same remaining grid, same oracles with f32 tolerances (reference in f64 from the published f32 parameters and the f32-rounded data / queries). \
          memory layouts: separated / overlapping / anisotropic members with 2..3 (quick) / 2..4 (thorough) features, k 1..3, both initialisers, seeds 0..1 / 0..3, reg_covar {1e-6,1e-3}, f64 and f32: the records given to fit and the observations given to predict / predict_proba (training rows, means, points 10 / 39 / 100 sd out) as column-major owned array, transposed view of a feature-major array, reversed-row view of a reversed copy, every-second-row view of an array whose filler rows are NaN, reversed-feature-axis view of a reversed copy, each compared with the standard-layout run. \
          size thresholds: members replicated to 1025 / 4097 rows (2 quick, 9 thorough incl. 2 in f32), k 2..3, both initialisers, seeds 0..1 / 0..3, reg_covar {1e-6,1e-3}, complete oracle set with every training row as a query. \
+         tiny variance: 5 members scaled by 0.05 (within-cluster variance ~2.5e-3, unequal blob sizes 25/15/20), k 2..3, both initialisers, seeds 0..2 / 0..7, reg_covar {1e-2,1e-1}, tolerance {1e-6,1e-9}, n_runs {1,3}, max_n_iterations {100,5}, complete oracle set. \
+         lock-step reference EM: the same 5 members scaled by 0.05 (reg_covar {1e-2,1e-1}, tolerance {1e-6,1e-9}) and unscaled (reg_covar {1e-3,0.1}, tolerance {1e-3,1e-5}), k 2..3, both initialisers, seeds 0..2 / 0..7, n_runs 1, max_n_iterations {100,10}: stop iteration and published parameters against a plain-f64 EM. \
          calling forms: separated / overlapping members (row layout r1) with 1..2 (quick) / 1..6 (thorough) features, k 1..3, both initialisers, seeds 0..1 / 0..3: predict through &array, owned array, array view, &dataset, owned dataset (without / with old targets), dataset of a view, &dataset of a view, predict_inplace into a poisoned and into a reused buffer, MultiTargetModel with one member (FromIterator, new, inplace) and with two members, each on the full query batch, a one-row and a two-row batch, every label compared with the arg-max tie set of the predict_proba row. \
          builder histories: 3 members x k 2..3 x both initialisers x seeds 0..1 / 0..5 x reg_covar {1e-3,0.1} x tolerance {1e-5,1e-2} x n_runs 3 x max_n_iterations {50,7}: the parameter set is built in all 720 orders of {with_rng, tolerance, reg_covariance, n_runs, max_n_iterations, init_method} and in 12 histories that write a decoy value first; the checked parameters must publish the configured values, and for 24 histories (with_rng at every position with the other setters ascending / descending, and the decoy histories) the fit must equal the canonical-order fit bit for bit. \
          budget ladder (outcome kind): separated / overlapping / anisotropic members with <= 2 (quick) / 3 (thorough) features, same k / init / seeds, reg_covar {1e-6,0.1}, tolerance {1e-3,1e-5}, n_runs {1,3}, max_n_iterations m in {1,2,3,5,10}: m = 1 must be Err; with n_runs = 1 an Ok at m must be reproduced bit-identically by m + 10. \
@@ -1584,6 +1795,7 @@ fn main() {
     ctx.assume("layouts: fitted parameters must agree with the standard-layout fit within 1e6 * eps of the largest parameter (same data and seed; only the rounding order may differ, amplified by the EM iterations; an Err must stay the same kind of Err); predict_proba rows must agree within 16 eps d k (max squared Mahalanobis distance + |ln w| + 50) + 4 eps (bit-identical rows are counted), predict labels exactly unless the two probabilities are tied within that bound (indeterminate)");
     ctx.assume("datasets of more than 60 rows: the tolerances of the quantities accumulated over the rows (weights sum, bounding box, moment identities) are multiplied by n / 60");
     ctx.assume("builder histories: every setter only writes its own field and with_rng only replaces the generator (last write wins); rng compared through the first u64 of a clone; fits compared with == on every parameter (same data, seed and logical parameters => same arithmetic)");
+    ctx.assume("lock-step reference EM (plain f64: max-shifted E-step, M-step with reg_covar on the diagonal), n_runs = 1: started from the subject's own state after two iterations (obtained with tolerance 1e300, for which the loop provably stops at its second iteration); the subject must stop at the first iteration j >= 3 whose reference change |L_j - L_(j-1)| is below the tolerance and publish the reference parameters of that iteration within 1e-6 relative, or return Err(NotConverged) when no iteration of the budget qualifies; runs that stop at j <= 2 (fit with max_n_iterations = 3 is Ok) and changes within 1e-11 (1 + |L|) + 1 % of the tolerance are indeterminate. The one-step statistic 'next EM step moves the log-likelihood by more than 10 tolerances' of the sweeps is reported, not judged");
     ctx.assume("budget ladder: fit is deterministic for a fixed seed (the rng is consumed only by the initialisation, cloned from the parameters at every call) and with n_runs = 1 an Ok result means the EM loop broke at an iteration < max_n_iterations, so a larger budget is never used: models compared with == on every f64 of weights, means, covariances, precisions; with max_n_iterations = 1 the only lower-bound change is measured against -inf (or is NaN), which is never below a tolerance");
 
     let members = catalogue(ctx.thorough());
@@ -1690,6 +1902,66 @@ fn main() {
         }
     }
     ctx.extra("layout_catalogue_members", json!(layout_members));
+    // tiny within-cluster variance against a regularisation of the same size or larger: the M-step is then far
+    // from exact and the lower bound may DROP between iterations (stopping rule on |change|)
+    let mut tiny_ids = Vec::new();
+    for id in ["separated-d2-b3-r1", "overlapping-d2-b3-r1", "separated-d1-b3-r1", "anisotropic-d3-b3-r1", "separated-d3-b2-r1"] {
+        let m = members.iter().find(|m| m.id == id).expect("catalogue member");
+        let data: Vec<Vec<f64>> = m.data.iter().map(|r| r.iter().map(|&v| (v * 0.05 * 1e6).round() / 1e6).collect()).collect();
+        tiny_ids.push(format!("{}-x0.05", id));
+        for k in 2..=3usize {
+            for init in ["kmeans", "random"] {
+                for seed in 0..ctx.pick(3u64, 8u64) {
+                    cases.push(Case {
+                        dataset: format!("{}-x0.05", id),
+                        family: "tiny_variance".to_string(),
+                        data: data.clone(),
+                        n_clusters: k,
+                        init: init.to_string(),
+                        seeds: vec![seed],
+                        reg_covars: vec![1e-2, 1e-1],
+                        tolerances: vec![1e-6, 1e-9],
+                        n_runs: vec![1, 3],
+                        max_iters: vec![100, 5],
+                        kind: "sweep".to_string(),
+                        float: "f64".to_string(),
+                    });
+                }
+            }
+        }
+    }
+    ctx.extra("tiny_variance_members", json!(tiny_ids));
+    {
+        let mut ls: Vec<(String, String, Vec<Vec<f64>>, Vec<f64>, Vec<f64>)> = Vec::new();
+        for id in ["separated-d2-b3-r1", "overlapping-d2-b3-r1", "separated-d1-b3-r1", "anisotropic-d3-b3-r1", "separated-d3-b2-r1"] {
+            let m = members.iter().find(|m| m.id == id).expect("catalogue member");
+            let tiny: Vec<Vec<f64>> = m.data.iter().map(|r| r.iter().map(|&v| (v * 0.05 * 1e6).round() / 1e6).collect()).collect();
+            ls.push((format!("{}-x0.05", id), "tiny_variance".into(), tiny, vec![1e-2, 1e-1], vec![1e-6, 1e-9]));
+            ls.push((id.to_string(), m.family.to_string(), m.data.clone(), vec![1e-3, 0.1], vec![1e-3, 1e-5]));
+        }
+        for (id, fam, data, regs, tols) in ls {
+            for k in 2..=3usize {
+                for init in ["kmeans", "random"] {
+                    for seed in 0..ctx.pick(3u64, 8u64) {
+                        cases.push(Case {
+                            dataset: id.clone(),
+                            family: fam.clone(),
+                            data: data.clone(),
+                            n_clusters: k,
+                            init: init.to_string(),
+                            seeds: vec![seed],
+                            reg_covars: regs.clone(),
+                            tolerances: tols.clone(),
+                            n_runs: vec![1],
+                            max_iters: vec![100, 10],
+                            kind: "lockstep".to_string(),
+                            float: "f64".to_string(),
+                        });
+                    }
+                }
+            }
+        }
+    }
     // calling forms of predict (incl. the one-feature members)
     let mut forms_members = Vec::new();
     for m in &members {
@@ -1829,7 +2101,7 @@ fn main() {
         }
     }
     ctx.extra("family_x_k_x_init_combinations_with_a_successful_fit", json!(families_ok.lock().unwrap().len()));
-    let fits_run = ["fits", "f32.fits", "ladder.fits", "layout.fits", "builder.fits", "forms.fits"].iter().map(|k| t.0.get(*k).cloned().unwrap_or(0)).sum::<u64>();
+    let fits_run = ["fits", "f32.fits", "ladder.fits", "layout.fits", "builder.fits", "forms.fits", "lockstep.fits"].iter().map(|k| t.0.get(*k).cloned().unwrap_or(0)).sum::<u64>();
     if fits_run != expected_fits {
         ctx.capped(&format!("{} of {} enumerated fits were run", fits_run, expected_fits));
     }
